@@ -458,8 +458,10 @@ theorem run_groups_all_or_none (cfg : Config) (env : Env) (ws : List Str) (st : 
 
 /-- **the printing options of a grapheme are those of the configuration** (read off the source on every run): the code stores the
 three printing options — capturing groups, colour, verbose — in every `Grapheme` it creates; the model prints each grapheme with the
-options of the configuration.  Every creation site outside the test modules hands over the three options of one configuration in the
-constructor's order, and the constructors store them under their own names -/
-theorem grapheme_options_follow_config : Gen.graphemeOptionSites.all (fun r => r.2) = true := by decide
+options of the configuration.  The translator's syntactic check succeeded at each of the sites it found (at least the constructors, the
+three sites of cluster.rs and the one of dfa.rs): the three options of one configuration are handed over in the constructor's order, and
+the constructors store them under their own names -/
+theorem grapheme_options_follow_config :
+    Gen.graphemeOptionSites.all (fun r => r.2) = true ∧ 5 ≤ Gen.graphemeOptionSites.length := by decide
 
 end Grexv.Props.C06
